@@ -210,6 +210,24 @@ def step (d : D) (t : List String) : D × String :=
       let (f, s) := WriteSnapshot d.params.cap d.st sn sg
       ({ d with st := s }, match f with | none => "ok" | some _ => "crash")
     | none => (d, "bad-op")
+  | "csnap" :: _n :: rest =>
+    -- queued writers: the snapshots arrive in the order in which the real writers committed
+    let rec go (fuel : Nat) (ts : List String) (st : State) (acc : List String) : Option (State × List String) :=
+      match fuel with
+      | 0 => none
+      | fuel + 1 =>
+        match ts with
+        | [] => some (st, acc.reverse)
+        | a :: b :: c :: e :: g :: h :: i :: more =>
+          match parseSnap [a, b, c, e, g, h, i] with
+          | some (sn, sg) =>
+            let (f, s) := WriteSnapshot d.params.cap st sn sg
+            go fuel more s (failStr f :: acc)
+          | none => none
+        | _ => none
+    match go (rest.length + 1) rest d.st [] with
+    | some (s, outs) => ({ d with st := s }, joinWith " " outs)
+    | none => (d, "bad-op")
   | ["nop"] => (d, "skip")
   | ["admit", id, fork] =>
     match id.toNat?, parseBool fork with
